@@ -1397,6 +1397,27 @@ class Interp(object):
         self.event('yield', v)
         return None
 
+    def ev_YieldFrom(self, e, frame):
+        # `yield from it`: every item of the inner iterable is yielded in turn (a call of a generator function evaluates, in
+        # expression context, to the values it yields)
+        v = self.ev(e.value, frame)
+        if isinstance(v, Deque):
+            v = list(v.items)
+        if isinstance(v, dict):
+            v = list(v)
+        if not isinstance(v, (list, tuple, str, bytes)):
+            raise Unsupported('yield from %r at %s' % (v, self.where(e, frame)))
+        items = list(v)
+        if isinstance(v, GenList):
+            del v[:]
+        handlers = self.__dict__.get('_yield_handlers')
+        for item in items:
+            if handlers and handlers[-1] is not None:
+                handlers[-1](item)
+            else:
+                self.event('yield', item)
+        return None
+
     @staticmethod
     def _is_generator_function(fi):
         cached = getattr(fi, '_is_gen', None)
@@ -2875,7 +2896,13 @@ class Interp(object):
                 f = mk0()
                 f.locals['__decorated_target__'] = FuncRef(fi)
                 return f
-        return self.run_paths(body, mk, label or fi.qualname)
+        res = self.run_paths(body, mk, label or fi.qualname)
+        if self._is_generator_function(fi) and not any('contextmanager' in d for d in fi.decorators):
+            # a generator function folded as an entry point: what its caller gets are the values it yields
+            for r in res:
+                if r.ok and r.value is None:
+                    r.value = GenList(e[1] for e in r.events if e[0] == 'yield')
+        return res
 
 
 def _deepcopy_data(v):
